@@ -3,7 +3,7 @@
    (Engine/HistFailDefs.v) into one OCaml module; driver: extract/hist_run.ml, tools/histmodel.py. *)
 Require Import ExtrOcamlBasic.
 From NinjaV Require Import Engine.CrashDefs.
-From NinjaV Require Import Base.Bytes Engine.ScanDefs Engine.ScanSpec Engine.HistDefs Engine.HistRun Engine.HistDry Engine.HistFaithful Engine.HistFailDefs Engine.HistCrashDefs Engine.HistDepsDefs Engine.HistDepsFaithful Engine.HistParDefs Engine.HistDepfileDefs Engine.HistFailFaithful Engine.HistDepfileFaithful Engine.HistFailKDefs Engine.HistDyndepDefs Engine.HistFailKFaithful Engine.HistDyndepFaithful.
+From NinjaV Require Import Base.Bytes Engine.ScanDefs Engine.ScanSpec Engine.HistDefs Engine.HistRun Engine.HistDry Engine.HistFaithful Engine.HistFailDefs Engine.HistCrashDefs Engine.HistDepsDefs Engine.HistDepsFaithful Engine.HistParDefs Engine.HistParPoolDefs Engine.HistDepfileDefs Engine.HistFailFaithful Engine.HistDepfileFaithful Engine.HistFailKDefs Engine.HistDyndepDefs Engine.HistFailKFaithful Engine.HistDyndepFaithful.
 Extraction Language OCaml.
 Set Extraction KeepSingleton.
-Extraction "histmodel.ml" Z.add N.add Nat.add hcmd init_hstate apply_step run_hist build step_run hist_ok frag_AB topo_ordered no_inputless_phony wf_b clean_of content_of is_clean opt_content_eqb h_trace HistRun.trace_delta dry_build buildF buildF_full taint_safe init_dstate dapply_step dbuild clean_of_d d_h d_deps frag_ABD inline hidden_reads_ordered no_restat_upstream_of_deps hist_present drop_deps build_f apply_step_f dbuild_f dapply_step_f buildK_full buildI_full taint_safe_stmt reads par_run par_accepted init_pcfg graph_of world_of scan init_fstate fapply_step fbuild f_ds f_df f_h clean_of_f frag_ABF to_log hist_present_f HistDepfileDefs.fhist_ok flift buildF_full_f buildK_full_f buildI_full_f fbuild_f buildFK HistFailKDefs.failed_edges ybuild ybuild_f inline_y scan_loads frag_ABY dd_ins_ordered no_late_restat all_dd_sources hist_present_y buildFK_f ybuild_ff.
+Extraction "histmodel.ml" Z.add N.add Nat.add hcmd init_hstate apply_step run_hist build step_run hist_ok frag_AB topo_ordered no_inputless_phony wf_b clean_of content_of is_clean opt_content_eqb h_trace HistRun.trace_delta dry_build buildF buildF_full taint_safe init_dstate dapply_step dbuild clean_of_d d_h d_deps frag_ABD inline hidden_reads_ordered no_restat_upstream_of_deps hist_present drop_deps build_f apply_step_f dbuild_f dapply_step_f buildK_full buildI_full taint_safe_stmt reads par_run par_accepted par_run_pool par_accepted_pool pool_of_list depth_of_list init_pcfg graph_of world_of scan init_fstate fapply_step fbuild f_ds f_df f_h clean_of_f frag_ABF to_log hist_present_f HistDepfileDefs.fhist_ok flift buildF_full_f buildK_full_f buildI_full_f fbuild_f buildFK HistFailKDefs.failed_edges ybuild ybuild_f inline_y scan_loads frag_ABY dd_ins_ordered no_late_restat all_dd_sources hist_present_y buildFK_f ybuild_ff.
